@@ -207,7 +207,11 @@ pub fn get_highest_quality_language(accept_language: String) -> Option<String> {
                 return None;
             }
 
-            let language = full_language.split('-').next().unwrap_or("").to_string();
+            let language = full_language
+                .split('-')
+                .next()
+                .unwrap_or("")
+                .to_ascii_lowercase();
             let quality: f32 = lang_and_quality
                 .next()
                 .and_then(|q| q.trim_start_matches("q=").parse::<f32>().ok())
